@@ -3,8 +3,8 @@ Driver/Pure.lean `snap` (exact arithmetic on the bit patterns) vs the real Marke
 import pure_props
 
 PROP = "C19"
-LEAN_MODULES = ["PamsProps.C19"]
-NAMESPACES = ["Pams.C19"]
+LEAN_MODULES = ["PamsProps.C19", "PamsProps.SrcAccept"]
+NAMESPACES = ["Pams.C19", "Pams.C19"]
 DRIVERS = ["Pure", "PyRun"]
 TRUSTED = [
     "theorems are over exact rationals; Python evaluates floor(price/tick)*tick in IEEE doubles: equal to the model exactly on the exact family, and up to the float representation of the grid otherwise (measured gap reported in evidence)",
